@@ -479,6 +479,14 @@ fn pst13(ctx: &mut Ctx, rng: &mut ChaCha20Rng) {
     let pp = &w.pp;
     let nv = cfg.num_vars.unwrap();
     let mut issues = Vec::new();
+    {
+        // independent trapdoors: per-variable G2 elements and G1 elements of distinct monomials pairwise different
+        let g2: std::collections::BTreeSet<Vec<u8>> = pp.beta_h.iter().map(crate::ju::ser).collect();
+        let g1: std::collections::BTreeSet<Vec<u8>> = pp.powers_of_g.values().map(crate::ju::ser).collect();
+        if g2.len() != pp.beta_h.len() || g1.len() != pp.powers_of_g.len() {
+            issues.push("published elements of distinct variables / monomials coincide (trapdoors not independent)".into());
+        }
+    }
     if pp.num_vars != nv || pp.max_degree != cfg.max_degree || pp.beta_h.len() != nv || pp.powers_of_gamma_g.len() != nv {
         issues.push("parameter shape differs from the request".to_string());
     }
